@@ -395,6 +395,12 @@ def takeIdChars : List Ch → List Ch
   | [] => []
   | c :: cs => c :: cs.takeWhile (·.idCont)
 
+/-- the character after `else if` (if any) does not continue an identifier -/
+def elseIfBoundary (cs : List Ch) : Bool :=
+  match (cs.drop 7).head? with
+  | some c => !c.idCont
+  | none => true
+
 def consumeIdOrKeyword (p : Pos) (prevTok : Option Token) (cs : List Ch) : IdRes :=
   match cs with
   | [] => .tok .error .stay
@@ -404,7 +410,9 @@ def consumeIdOrKeyword (p : Pos) (prevTok : Option Token) (cs : List Ch) : IdRes
     let count := 1 + w
     let idCps := (takeIdChars cs).map (·.cp)
     if idCps == elseCps then
-      if startsWith elseIfCps cs then .tok .elseIf (advLine p 7) else .tok .else_ (advLine p 4)
+      -- `else if` needs a word boundary after `if` (`else iffy` is `else` followed by an id)
+      if startsWith elseIfCps cs && elseIfBoundary cs then .tok .elseIf (advLine p 7)
+      else .tok .else_ (advLine p 4)
     else
       let rawRes := if idCps == [cp_r] then rawStringStart rest 0 else none
       match rawRes with
